@@ -33,3 +33,31 @@ def derived_objects(s, seed=0, with_swap=True):
         finally:
             np.random.set_state(st)
     return out
+
+
+def check_input_independence(ctx, case, pos, neg, kwargs, query):
+    """
+    A default-constructed Scores object (is_sorted=False) owns a sorted copy of its inputs: when the caller
+    afterwards overwrites the ndarrays it passed in (sorted or unsorted), `query(obj)` must not change.
+    """
+    from score_analysis import Scores
+    from mc.opgraph import canon
+
+    for order in ("sorted", "unsorted"):
+        a = np.array(sorted(pos) if order == "sorted" else list(pos)[::-1], dtype=float)
+        b = np.array(sorted(neg) if order == "sorted" else list(neg)[::-1], dtype=float)
+        try:
+            obj = Scores(a, b, **kwargs)
+            before = canon(query(obj))
+            if a.size:
+                a[...] = a[::-1] * -2.0 + 1.0
+            if b.size:
+                b[...] = b[::-1] * 0.5 - 4.0
+            after = canon(query(obj))
+        except Exception as e:  # noqa
+            ctx.fail("unexpected-exception:input-independence", dict(case, input_order=order), observed=repr(e), expected="no exception")
+            continue
+        ctx.tick()
+        if before != after:
+            ctx.fail("object-independent-of-callers-arrays-after-construction", dict(case, input_order=order),
+                     observed=after, expected=before)
